@@ -107,3 +107,43 @@ class RecTracer(object):
 
 def _ccm8(ws):
     return getattr(ws.encContext, "tagLength", 16) == 8
+
+
+def _h24(b):
+    import hashlib
+    return int.from_bytes(hashlib.sha256(bytes(b)).digest()[:3], "big")
+
+
+def attach_msgs(tr, conn, ep, pha_ctx=None):
+    """message-level hook (post-handshake): emits M events naming what the next record carries"""
+    from tlslite.constants import HandshakeType, HeartbeatMessageType
+    wdir = "c2s" if ep == "c" else "s2c"
+    orig = conn._sendMsg
+
+    def _sendMsg(msg, randomizeFirstBlock=True, update_hashes=True):
+        ct = msg.contentType
+        t, a, b = None, 0, 0
+        if ct == ContentType.heartbeat:
+            kind = "hbreq" if msg.message_type == HeartbeatMessageType.heartbeat_request else "hbresp"
+            t, a, b = kind, _h24(msg.payload), len(msg.payload)
+        elif ct == ContentType.alert:
+            t, a, b = "alert", msg.level, msg.description
+        elif ct == ContentType.handshake:
+            ht = getattr(msg, "handshakeType", None)
+            if ht == HandshakeType.key_update:
+                t, a = "ku", int(msg.message_type)
+            elif ht == HandshakeType.new_session_ticket:
+                t = "nst"
+            elif ht == HandshakeType.certificate_request:
+                t = "cr"
+            elif ht in (HandshakeType.certificate, HandshakeType.compressed_certificate):
+                t = "phacert"
+            elif ht == HandshakeType.certificate_verify:
+                t = "phacv"
+            elif ht == HandshakeType.finished:
+                t = "phafin"
+        if t is not None:
+            tr.emit("M", d=wdir, t=t, a=a, b=b)
+        for r in orig(msg, randomizeFirstBlock, update_hashes):
+            yield r
+    conn._sendMsg = _sendMsg
